@@ -469,15 +469,75 @@ def depth_of(entries):
 # Every generated dictionary adds classes to the library's process-global registries, and `issubclass(x, Field)` on an ABC
 # walks all existing subclasses (filling their negative caches): cost and memory grow quadratically with the number of
 # classes in one process.  Batches therefore run in short-lived forked workers, each with its own seeded generator.
+class CaseTimeout(Exception):
+    """the implementation did not finish one case in time (reported as an observation, never an infrastructure error)"""
+
+
+class time_limit:
+    """`with time_limit(seconds):` — SIGALRM based (main thread of a worker process); nests by restoring the old timer"""
+    def __init__(self, seconds):
+        self.seconds = seconds
+
+    def __enter__(self):
+        import signal
+
+        def on_alarm(_sig, _frm):
+            raise CaseTimeout(f'no result after {self.seconds} s')
+        try:
+            self.old = signal.signal(signal.SIGALRM, on_alarm)
+            signal.setitimer(signal.ITIMER_REAL, self.seconds)
+            self.armed = True
+        except ValueError:          # not in the main thread
+            self.armed = False
+        return self
+
+    def __exit__(self, *exc):
+        import signal
+        if self.armed:
+            signal.setitimer(signal.ITIMER_REAL, 0)
+            signal.signal(signal.SIGALRM, self.old)
+        return False
+
+
+def limit_memory(gigabytes=3):
+    """a decoder that loops on `count` can allocate without bound: turn that into MemoryError instead of an OOM kill.
+    Only the soft limit is lowered, so that it can be lifted again around calls of the Lean driver (its runtime reserves
+    a lot of address space)"""
+    import resource
+    lim = int(gigabytes * 2**30)
+    try:
+        _soft, hard = resource.getrlimit(resource.RLIMIT_AS)
+        resource.setrlimit(resource.RLIMIT_AS, (lim, hard))
+    except (ValueError, OSError):
+        pass
+
+
+class GuardedDriver:
+    """the model driver with the address-space limit lifted for the duration of a request"""
+    def __init__(self, driver):
+        self.driver = driver
+        self.available = driver.available
+
+    def ask(self, lines):
+        import resource
+        soft, hard = resource.getrlimit(resource.RLIMIT_AS)
+        try:
+            resource.setrlimit(resource.RLIMIT_AS, (hard, hard))
+            return self.driver.ask(lines)
+        finally:
+            resource.setrlimit(resource.RLIMIT_AS, (soft, hard))
+
+
 def _chunk_worker(args):
     import importlib
     import random
     import common
     prop, tier, seed, modname, chunk_id, payload = args
+    limit_memory()
     ctx = common.Ctx(prop, tier, seed)
     ctx.rng = random.Random(f'{prop}-{seed}-chunk{chunk_id}')
     mod = importlib.import_module(modname)
-    ctx.driver = common.Driver(getattr(mod, 'DRIVER', f'drv_{prop}'))
+    ctx.driver = GuardedDriver(common.Driver(getattr(mod, 'DRIVER', f'drv_{prop}')))
     try:
         mod.run_chunk(ctx, payload)
         err = None
